@@ -770,6 +770,22 @@ class Model:
         mod, _, name = path.rpartition('.')
         if mod == 'builtins':
             return self._builtin(interp, name, args, kwargs, node)
+        if path == 'contextlib.suppress':
+            from .interp import Suppress
+            names = []
+            for a in args:
+                if isinstance(a, ClassRef):
+                    names.append(a.ci.name)
+                elif isinstance(a, ExtRef):
+                    names.append(a.path.split('.')[-1])
+                else:
+                    raise AnalysisError(f'contextlib.suppress of {a!r} at {interp.where(node)}')
+            return Suppress(names)
+        if path == 'contextlib.nullcontext':
+            from .interp import GenResult as _G
+            g = _G([args[0] if args else None])
+            g.context_manager = True
+            return g
         if path == 'json.dumps' and len(args) == 1 and _plain_with_images(args[0]):
             import json
             try:
@@ -883,6 +899,13 @@ class Model:
             return GenResult(itertools.product(*[interp.iterate(a, node) for a in args]))
         if path == 'itertools.islice' and len(args) >= 2 and all(isinstance(a, int) or a is None for a in args[1:]):
             import itertools
+            if isinstance(args[0], GenResult):
+                # a slice of an iterator takes from it what it needs and leaves the rest to the next reader
+                sl = slice(*args[1:])
+                need = len(args[0]) if sl.stop is None else min(sl.stop, len(args[0]))
+                taken = list(args[0][:need])
+                del args[0][:need]
+                return GenResult(itertools.islice(taken, *args[1:]))
             return GenResult(itertools.islice(interp.iterate(args[0], node), *args[1:]))
         if path.startswith('typing.') or path.startswith('dataclasses.'):
             return Opaque(path)
